@@ -76,7 +76,7 @@ func builtinArrayConcat(call FunctionCall) Value {
 					if obj.hasProperty(name) {
 						valueArray = append(valueArray, obj.get(name))
 					} else {
-						valueArray = append(valueArray, Value{})
+						valueArray = append(valueArray, emptyValue)
 					}
 				}
 				continue
